@@ -26,7 +26,7 @@ LEVEL_NOTE = ("Order is decided in the bounded, restated form 'observed slope ov
               "and end positions stay inside the clip box; the metric is the start cell's, as the implementation documents. RK2 = midpoint rule.")
 RULE = ("cases: onestep (field x scheme x metric, 200 particles, 6 steps), order (field x scheme ladder), helper (analytical.get_velocityN ladder), e2e (ROMS files, linear field, scheme, "
         "dx != dy). Non-trivial: the field has non-zero second derivatives or time dependence so that the three schemes differ; distinct by (kind, field, scheme, metric).")
-MANDATORY = ["inactive_particles_among_the_active", "grid_corner_off_diagonal", "e2e_subgrid_off_diagonal", "onestep_EF", "onestep_RK2", "onestep_RK4", "time_dependent_field", "anisotropic_metric", "piecewise_metric", "order_EF", "order_RK2", "order_RK4",
+MANDATORY = ["time_step_of_odd_seconds", "e2e_reversed_time_dependent", "inactive_particles_among_the_active", "grid_corner_off_diagonal", "e2e_subgrid_off_diagonal", "onestep_EF", "onestep_RK2", "onestep_RK4", "time_dependent_field", "anisotropic_metric", "piecewise_metric", "order_EF", "order_RK2", "order_RK4",
              "helper_order_1", "helper_order_2", "helper_order_4", "e2e_runs", "velocity_requests_checked"]
 ASSUMPTIONS = ["per-step displacement below about one cell (Courant <= 0.9)", "diffusion off"]
 TIMEOUT = {"quick": 900, "thorough": 3000}
@@ -94,6 +94,9 @@ def _onestep(case, V, sit, cnt, keys):
     dx = float(rng.choice([200.0, 1000.0, 4000.0]))
     dy = dx if case["metric"] == "iso" else dx * float(rng.uniform(0.5, 1.8))
     dt = int(rng.choice([300, 600, 900]))
+    if case["idx"] % 4 == 2:
+        dt = int(rng.choice([75, 45, 225, 15, 301]))  # an odd number of seconds: half a step is not a whole number of seconds
+        _bump(sit, "time_step_of_odd_seconds")
     courant = float(rng.uniform(0.05, 0.9))
     speed = courant * min(dx, dy) / dt
     timedep = bool(rng.random() < 0.5)
@@ -301,6 +304,9 @@ def _e2e(case, wd, V, sit, cnt, keys):
     while offs[-1] < span:
         offs.append(offs[-1] + gaps[len(offs) % 6] * dt)
     start = C.T0
+    rev = bool(case["idx"] % 4 == 3)  # time-dependent field, time reversed: the scheme runs in the mirrored, sign-flipped flow
+    if rev:
+        offs = sorted(-o for o in offs)
     w = dict(imax=imax, jmax=jmax, N=2, t0=start, frames=offs, files=[len(offs)], vel=lin, store="f8",
              metric=dict(kind="uniform", dx=dx, dy=dy), h=dict(kind="flat", h=50.0))
     npart = 12
@@ -308,11 +314,13 @@ def _e2e(case, wd, V, sit, cnt, keys):
     Y0 = rng.uniform(8.0, jmax - 9.0, size=npart)
     rows = [[start, float(X0[k]), float(Y0[k]), 5.0] for k in range(npart)]
     sub = [None, [6, imax - 1, 2, jmax - 1], [2, imax - 2, 5, jmax - 2]][case["idx"] % 3]
-    run = dict(start=start, stop=str(tadd(start, nsteps * dt)), dt=dt, advection=scheme, subgrid=sub,
+    run = dict(start=start, stop=str(tadd(start, (-1 if rev else 1) * nsteps * dt)), dt=dt, reversed=rev, advection=scheme, subgrid=sub,
                release=dict(columns=["release_time", "X", "Y", "Z"], rows=rows, header=True), output=dict(period=dt))
     res, conf, world = run_scenario(dict(world=w, run=run), wd)
     if sub:
         _bump(sit, "e2e_subgrid_off_diagonal")
+    if rev:
+        _bump(sit, "e2e_reversed_time_dependent")
     desc = dict(scheme=scheme, subgrid=sub, field=lin, dt=dt, dx=dx, dy=dy, frames_steps=[o // dt for o in offs], nsteps=nsteps)
     _bump(sit, "e2e_runs")
     if not res.ok:
@@ -320,6 +328,13 @@ def _e2e(case, wd, V, sit, cnt, keys):
         return
     recs = all_records(read_outputs(res.outputs))
     vel = ref.flow_vel(lin)
+    if rev:
+        fwd = vel
+
+        def vel(x, y, t):  # simulation time t (seconds after the start) <-> physical time -t, flow of opposite sign
+            u_, v_ = fwd(x, y, -t)
+            return -u_, -v_
+
     X, Y = X0.copy(), Y0.copy()
     for n, r in enumerate(recs):
         if len(r.pid) != npart:
